@@ -13,6 +13,7 @@ mod c11;
 mod c06;
 mod c10;
 mod c17;
+mod c16;
 mod jsonmut;
 
 use std::collections::HashMap;
@@ -61,6 +62,7 @@ fn main() {
         "c06" => c06::run(&o),
         "c10" => c10::run(&o),
         "c17" => c17::run(&o),
+        "c16" => c16::run(&o),
         "c09" => c01::run_c09(&o),
         other => {
             eprintln!("unknown stream {other}");
